@@ -174,17 +174,16 @@ def judge(c, io, r):
 
 
 def shrink(c):
+    # few candidates per round: every candidate is a fresh multi-threaded run
     if c["kind"] == "uid":
-        if c["threads"] > 1:
-            yield dict(c, threads=c["threads"] // 2)
-            yield dict(c, threads=1)
+        if c["threads"] > 2:
+            yield dict(c, threads=2)
         if c["calls"] > 1:
-            yield dict(c, calls=c["calls"] // 2)
-            yield dict(c, calls=c["calls"] - 1)
+            yield dict(c, calls=max(1, c["calls"] // 4))
     if c["kind"] == "sheet":
         for key in ("threads", "sheets", "k"):
             if c[key] > 1:
-                yield dict(c, **{key: c[key] // 2})
+                yield dict(c, **{key: max(1, c[key] // 2)})
 
 
 LEVEL_TEXT = ("proof: for EVERY schedule (list of thread ids, any number of threads and calls) of the Mutex-protected "
